@@ -116,6 +116,57 @@ func RunC13(tier string) int {
 						ls = append(ls, t.Label())
 					}
 					rng.Shuffle(r, ls)
+					if r.Chance(1, 2) {
+						// taint by pattern: package wildcard, recursive wildcard, name in every
+						// package below, relative forms from a package directory, shorthand
+						t := env.Spec.Target(ls[0])
+						var pat, cwd, abs string
+						switch r.Intn(6) {
+						case 0:
+							abs = "//" + t.Pkg + ":all"
+							pat = abs
+						case 1:
+							abs = "//" + t.Pkg + "/..."
+							if t.Pkg == "" {
+								abs = "//..."
+							}
+							pat = abs
+						case 2:
+							abs = "//...:" + t.Name
+							pat = abs
+						case 3:
+							cwd, pat, abs = t.Pkg, ":"+t.Name, t.Label()
+						case 4:
+							cwd, pat, abs = t.Pkg, ":all", "//"+t.Pkg+":all"
+						default:
+							abs = t.Label()
+							pat = abs
+							if parts := strings.Split(t.Pkg, "/"); t.Pkg != "" && parts[len(parts)-1] == t.Name {
+								pat = "//" + t.Pkg // shorthand
+							}
+						}
+						res := env.RunTaintFrom(cwd, []string{pat})
+						if res.Exit != 0 {
+							run.Infra("grog taint failed: " + tail(res.Stderr+res.Stdout, 300))
+							return
+						}
+						n := 0
+						for _, u := range env.Spec.Targets {
+							if MatchPattern(abs, u.Pkg, u.Name) {
+								env.Taint[u.Label()] = true
+								n++
+							}
+						}
+						run.Count("taints_by_pattern", 1)
+						run.Count("targets_tainted_by_pattern", n)
+						// grog says how many targets it tainted: compare with the reference matcher
+						if want := fmt.Sprintf("Tainted %d target", n); !strings.Contains(res.Stdout+res.Stderr, want) {
+							keep = !run.Violation("taint-pattern-matches-differ", fmt.Sprintf("grog taint %s (from %q) reports %q, the reference matcher finds %d targets", pat, cwd, lastLineOf(res.Stdout+res.Stderr), n), mkReplay(i, env, nil)) || keep
+							return
+						}
+						name = "taint-pattern"
+						break
+					}
 					ls = ls[:r.Range(1, min(2, len(ls)))]
 					sort.Strings(ls)
 					res := env.RunTaint(ls)
@@ -239,4 +290,9 @@ func RunC13(tier string) int {
 	})
 	run.Assume("what a cache-disabled build leaves behind in the cache is not fixed by the statement: the following build of those targets is may-exec")
 	return run.Finish()
+}
+
+func lastLineOf(s string) string {
+	ls := strings.Split(strings.TrimSpace(s), "\n")
+	return ls[len(ls)-1]
 }
